@@ -4,10 +4,13 @@ package main
 
 import (
 	"fmt"
+	"strings"
 	"time"
 
 	"github.com/form3tech-oss/f1/v2/internal/trigger/api"
+	"github.com/form3tech-oss/f1/v2/internal/trigger/constant"
 	"github.com/form3tech-oss/f1/v2/internal/verifharness/hlib"
+	"github.com/form3tech-oss/f1/v2/internal/verifshim/vrand"
 )
 
 var now = time.Date(2024, 1, 1, 0, 0, 0, 0, time.UTC)
@@ -327,6 +330,77 @@ func longRunSuite(subTicks int) hlib.Suite {
 	}}
 }
 
+// triggerSuite: the distribution as the constant trigger composes it with jitter
+// (constant.CalculateConstantRate): the underlying rate of a cycle is the jittered
+// rate, so the random source is drawn from once per cycle, and a regular cycle
+// is still an even split of one value.
+func triggerSuite() hlib.Suite {
+	return hlib.Suite{Name: "through-the-constant-trigger/jitter-x-distribution", Run: func(r *hlib.Rec) {
+		defer func() { vrand.Script = nil }()
+		us := []float64{0, 0.125, 0.25, 0.375, 0.5}
+		for _, jit := range []float64{0, 20, 50} {
+			for _, dist := range []string{"none", "regular", "random"} {
+				for _, rate := range []string{"100/1s", "7/300ms", "10/100ms", "3/2s"} {
+					if !r.Mine() {
+						continue
+					}
+					r.Eval()
+					input := fmt.Sprintf("constant --rate %s --jitter %v --distribution %s", rate, jit, dist)
+					r.SampleCase(input)
+					draws := 0
+					vrand.Script = func() float64 { draws++; return us[draws%len(us)] }
+					rates, err := constant.CalculateConstantRate(jit, rate, dist)
+					if err != nil {
+						r.Fail("C12/trigger-rejected", dist, err.Error(), input)
+						continue
+					}
+					var unit time.Duration
+					var perUnit int
+					fmt.Sscanf(rate, "%d/", &perUnit)
+					unit, _ = time.ParseDuration(rate[strings.Index(rate, "/")+1:])
+					n := 1
+					if dist != "none" && unit > 100*time.Millisecond {
+						n = int(unit / (100 * time.Millisecond))
+					}
+					ts := now
+					for cyc := 0; cyc < 6; cyc++ {
+						before := draws
+						mn, mx := 1<<30, -1
+						for i := 0; i < n; i++ {
+							ts = ts.Add(rates.IterationDuration)
+							v := rates.Rate(ts)
+							r.Step()
+							if v < mn {
+								mn = v
+							}
+							if v > mx {
+								mx = v
+							}
+						}
+						// the random distribution draws for its own split too; what is fixed is
+						// the jitter: none without jitter, one draw per cycle with it
+						if dist != "random" {
+							wantDraws := 1
+							if jit == 0 {
+								wantDraws = 0
+							}
+							if draws-before != wantDraws {
+								r.Fail("C12/trigger-underlying-rate", "not-once-per-cycle", fmt.Sprintf("cycle %d of %d sub-ticks: the jittered underlying rate was drawn %d times, want %d", cyc, n, draws-before, wantDraws), input)
+								break
+							}
+						}
+						if dist == "regular" && mx-mn > 1 {
+							r.Fail("C12/trigger-even", "spread>1", fmt.Sprintf("cycle %d: values range from %d to %d", cyc, mn, mx), input)
+							break
+						}
+					}
+					r.Distinct(input)
+				}
+			}
+		}
+	}}
+}
+
 func passSuite() hlib.Suite {
 	return hlib.Suite{Name: "pass-through-and-unknown-kind", Run: func(r *hlib.Rec) {
 		for _, kind := range []api.DistributionType{api.NoneDistribution, api.RegularDistribution, api.RandomDistribution} {
@@ -367,9 +441,9 @@ func passSuite() hlib.Suite {
 
 func suites(tier string) []hlib.Suite {
 	if tier == "quick" {
-		return []hlib.Suite{regularSuite(100, 300, 1), regularSuite(30, 1_000_000, 331), hugeSuite(), varyingSuite(), randomSuite(4), passSuite(), longRunSuite(40_000_000)}
+		return []hlib.Suite{regularSuite(100, 300, 1), regularSuite(30, 1_000_000, 331), hugeSuite(), varyingSuite(), randomSuite(4), passSuite(), triggerSuite(), longRunSuite(40_000_000)}
 	}
-	return []hlib.Suite{regularSuite(1000, 1500, 1), regularSuite(60, 20000, 7), regularSuite(12, 2_000_000, 997), regularSuite(12, 450_000_000, 99991), regularSuite(1000, 450_000_000, 9_999_991), hugeSuite(), varyingSuite(), randomSuite(5), passSuite(), longRunSuite(400_000_000)}
+	return []hlib.Suite{regularSuite(1000, 1500, 1), regularSuite(60, 20000, 7), regularSuite(12, 2_000_000, 997), regularSuite(12, 450_000_000, 99991), regularSuite(1000, 450_000_000, 9_999_991), hugeSuite(), varyingSuite(), randomSuite(5), passSuite(), triggerSuite(), longRunSuite(400_000_000)}
 }
 
 func main() { hlib.EnumMain("C12", suites) }
